@@ -20,6 +20,7 @@ btot = z3.Function("btot", Bag, RealS)                      # total value of a (
 bcard = z3.Function("bcard", Bag, IntS)                     # cardinality of a (finite) bag
 rank = z3.Function("rank", Item, IntS)                      # the items' OWN order (names compare among themselves), unrelated to val; injective
 istype = z3.Function("istype", Item, IntS, BoolS)           # isinstance(item, T) for the type with code T: an unknown predicate on items
+rmax = z3.Function("rmax", ISeq, IntS, IntS, RealS)         # largest value in a (non-empty) window a[lo:hi]
 truthy = z3.Function("truthy", Item, BoolS)                # bool(item): unknown for an opaque item (the names 0 and "" are falsy)
 EMPTY = z3.K(Item, z3.IntVal(0))
 
@@ -65,6 +66,13 @@ def concat(a, lo, mid, hi):
     plus = (x + y).decl()
     return z3.Implies(z3.And(lo <= mid, mid <= hi), z3.And(rbag(a, lo, hi) == z3.Map(plus, rbag(a, lo, mid), rbag(a, mid, hi)),
                                                          rtot(a, lo, hi) == rtot(a, lo, mid) + rtot(a, mid, hi)))
+
+
+def rmax_facts(a, lo, hi):
+    """DEFINITION of rmax on a non-empty window: an upper bound of the values that is attained"""
+    k, w = fresh("k", IntS), fresh("w", IntS)
+    return z3.Implies(lo < hi, z3.And(z3.ForAll([k], z3.Implies(z3.And(lo <= k, k < hi), val(z3.Select(a, k)) <= rmax(a, lo, hi))),
+                                      z3.Exists([w], z3.And(lo <= w, w < hi, val(z3.Select(a, w)) == rmax(a, lo, hi)))))
 
 
 def empty_range(a, lo, hi):
